@@ -125,12 +125,14 @@ def classify(codemod_name, before_src, needs_tuple, model_kinds):
             return "C08/combine-calls/name-argument-denoting-a-tuple"
         return None
     if codemod_name == "invert-boolean-check":
+        # `not X is True` -> `not X` / `not X is False` -> `X` for a non-bool X.  The rule also fires on an
+        # intermediate form: `not (not X is not True)` first becomes `not (X is True)`, then `not X`.
         for node in ast.walk(b):
-            if isinstance(node, ast.UnaryOp) and isinstance(node.op, ast.Not) and isinstance(node.operand, ast.Compare):
-                c = node.operand
-                if len(c.ops) == 1 and isinstance(c.ops[0], ast.Is) and isinstance(c.comparators[0], ast.Constant) and isinstance(c.comparators[0].value, bool):
-                    if not (isinstance(c.left, ast.Name) and KINDS.get(c.left.id) == "b"):
-                        return "C08/invert-boolean-check/is-True-on-non-bool"
+            if isinstance(node, ast.UnaryOp) and isinstance(node.op, ast.Not):
+                for c in ast.walk(node.operand):
+                    if isinstance(c, ast.Compare) and len(c.ops) == 1 and isinstance(c.ops[0], (ast.Is, ast.IsNot)) and isinstance(c.comparators[0], ast.Constant) and isinstance(c.comparators[0].value, bool):
+                        if not (isinstance(c.left, ast.Name) and KINDS.get(c.left.id) == "b"):
+                            return "C08/invert-boolean-check/is-True-on-non-bool"
         return None
     return None
 
